@@ -179,7 +179,10 @@ def _close(a, b, tol):
 
 def _edit(w, ev, st):
     op = ev["op"]
-    if op == "set2":
+    if op == "set2" and ev.get("direct"):
+        # the same edit through the public Step.transform setter of the step the pipeline hands out
+        w.pipeline[list(w.available_frames).index("focal")].transform = S.step2(ev["params"])
+    elif op == "set2":
         w.set_transform("focal", "sky", S.step2(ev["params"]))
     elif op == "set1":
         w.set_transform("detector", "inter" if "inter" in w.available_frames else "focal", S.step1(ev["params"]))
@@ -324,7 +327,11 @@ def impl(case):
                 after = _snapshot(w)
                 rec["changed"] = [k for k in snap if snap[k] != after[k]]
         rec["epoch"] = _EPOCH[0]
-        rec["memo"] = None if w._approx_inverse is None else w.__dict__.get("_verif_calc_epoch", -1)
+        # the memo counts only while it is valid for the transforms the pipeline holds now (it is dropped lazily, at the next
+        # inversion, when a step's transform was replaced through the Step object)
+        key_now = tuple(id(st_.transform) for st_ in w.pipeline)
+        stale = "_approx_inverse_key" in w.__dict__ and w.__dict__["_approx_inverse_key"] != key_now
+        rec["memo"] = None if (w._approx_inverse is None or stale) else w.__dict__.get("_verif_calc_epoch", -1)
         steps.append(rec)
     return {"steps": steps}
 
@@ -456,7 +463,7 @@ def gen(rng, tier):
                     if rng.random() < 0.5:  # small re-pointing, same scale
                         np_["scale"], np_["rot"], np_["parity"] = cur2["scale"], cur2["rot"], cur2["parity"]
                     cur2 = np_
-                    events.append({"k": "edit", "op": "set2", "params": np_})
+                    events.append({"k": "edit", "op": "set2", "params": np_, "direct": rng.random() < 0.35})
                 elif op == "set1":
                     np_ = S.gen_params(rng)
                     np_["crpix"] = [cur1["crpix"][0] + rng.uniform(-40, 40), cur1["crpix"][1] + rng.uniform(-40, 40)]
